@@ -141,12 +141,9 @@ _ACTIVE = None          # the Sim that is currently running, if any
 
 
 def _called_from_kingdon():
-    try:
-        kd = _KDIR[0]
-    except IndexError:
-        return False
     f = sys._getframe(2)
-    return bool(f and kd and f.f_code.co_filename.startswith(kd))
+    fn = f.f_code.co_filename if f else ''
+    return any(fn.startswith(kd) for kd in _KDIR)
 
 
 _KDIR = []
@@ -223,8 +220,12 @@ def _RLock(*a, **k):
     return _real_RLock(*a, **k)
 
 
-def install_lock_patch():
-    """Must run before kingdon is imported, so that module-level locks are simulated too."""
+def install_lock_patch(kdir=None):
+    """Must run before kingdon is imported, so that module-level locks are simulated too.
+    `kdir` is the directory the kingdon package will be imported from."""
+    if kdir is None:
+        kdir = os.path.join(os.path.realpath(os.environ.get('VERIF_REPO', '/repo')), 'kingdon')
+    _KDIR[:] = [kdir]
     threading.Lock = _Lock
     threading.RLock = _RLock
 
@@ -294,7 +295,8 @@ class Sim:
     # ---- instrumentation -------------------------------------------------------------
     def install(self):
         self.kdir = kingdon_dir()
-        _KDIR[:] = [self.kdir]
+        if self.kdir not in _KDIR:
+            _KDIR.append(self.kdir)
         self.codes = [c for c in discover_code(self.kdir)
                       if os.path.basename(c.co_filename) not in self.atomic_files]
         self.code_idx = {c: i for i, c in enumerate(self.codes)}
@@ -521,6 +523,11 @@ class Sim:
         t.state = 'blocked'
         t.waiting = lock
         self.h.update(b'B')
+        if not self._closed and self.segments and self.segments[-1][0] == t.tid:
+            self.segments[-1][2] = 2          # this stretch ended because the thread blocked on a lock
+        if self.replay and self.si < len(self.sched_in) and self.sched_in[self.si][0] == t.tid:
+            self.si += 1
+            self.used = 0
         nxt = self._pick_among(others)
         self._switch(t, nxt, None, 'lock-block')
         return True
